@@ -14,7 +14,7 @@ PID = "C08"
 RULE = ("secret keys of the four curves (uniform valid scalars plus 1, n-1, high-bit patterns; Ed25519 seeds and 64-byte "
         "keys); passphrases (text incl. non-ASCII, bytes); mnemonics: valid ones from random entropy of "
         "128/160/192/224/256 bits with an independent checksum, the same with one word replaced or two swapped, wrong "
-        "lengths; emails/passwords. Oracle: public key == independent derivation (cryptography / py_ecc primitives), "
+        "lengths, in english and eight other wordlists, spelled NFKD / NFC / with ideographic spaces (japanese); emails/passwords. Oracle: public key == independent derivation (cryptography / py_ecc primitives), "
         "pkh == b58(tzN, blake2b-160(pk)) and HASH_KEY agrees, export/import (plain, encrypted, Ed25519 seed and "
         "64-byte form) preserves the key, wrong passphrase rejected, validate_mnemonic accepts iff the independent "
         "BIP-39 checksum accepts, from_mnemonic deterministic and equal to an independent PBKDF2 derivation. "
@@ -23,9 +23,19 @@ RULE = ("secret keys of the four curves (uniform valid scalars plus 1, n-1, high
 os.environ.setdefault("PYTEZOS_PASSPHRASE", "")  # never prompt
 
 
-def _wordlist():
+def _wordlist(lang="english"):
     from mnemonic import Mnemonic
-    return Mnemonic("english").wordlist
+    return [unicodedata.normalize("NFKD", w) for w in Mnemonic(lang).wordlist]
+
+
+def _spell(words, form, lang):
+    """The same word sequence as a sentence in one of its legitimate spellings (BIP-39: sentences are compared after NFKD)."""
+    text = " ".join(words)
+    if form == "nfc":
+        return unicodedata.normalize("NFC", text)
+    if form == "ideographic-space":
+        return "\u3000".join(words)
+    return text
 
 
 def check_key(case):
@@ -37,12 +47,17 @@ def check_key(case):
         raise Violation("from_secret_exponent(%s) raised %r" % (curve, e), case, "derive-raise:" + curve)
     want_pub = rc.derive_public(curve, sec)
     want_pk = rc.tz_encode(want_pub, rc.CURVE_PK[curve])
-    if k.public_key() != want_pk:
-        raise Violation("%s public key %s, independent derivation %s" % (curve, k.public_key(), want_pk), case,
+    try:
+        got_pk, got_pkh = k.public_key(), k.public_key_hash()
+    except Exception as e:
+        raise Violation("public_key()/public_key_hash() raised %r for a %s key (expected %s)" % (e, curve, want_pk), case,
+                        "public-key-raise:" + curve)
+    if got_pk != want_pk:
+        raise Violation("%s public key %s, independent derivation %s" % (curve, got_pk, want_pk), case,
                         "public-key:" + curve)
     want_pkh = rc.tz_encode(rc.blake2b_20(want_pub), rc.CURVE_PKH[curve])
-    if k.public_key_hash() != want_pkh:
-        raise Violation("%s pkh %s, expected %s" % (curve, k.public_key_hash(), want_pkh), case, "pkh:" + curve)
+    if got_pkh != want_pkh:
+        raise Violation("%s pkh %s, expected %s" % (curve, got_pkh, want_pkh), case, "pkh:" + curve)
     # HASH_KEY
     stk, out, err = interp.run([interp.push({"prim": "key"}, {"string": want_pk}), {"prim": "HASH_KEY"}])
     if err is not None:
@@ -94,11 +109,12 @@ def check_key(case):
 def check_mnemonic(case):
     from pytezos.crypto.key import Key, validate_mnemonic
     words = case["words"]
-    text = " ".join(words)
-    wl = _wordlist()
+    lang, form = case.get("lang", "english"), case.get("form", "nfkd")
+    text = _spell(words, form, lang)
+    wl = _wordlist(lang)
     valid = rc.bip39_is_valid(words, wl)
     try:
-        validate_mnemonic(text)
+        validate_mnemonic(text, language=lang) if lang != "english" else validate_mnemonic(text)
         accepted = True
     except Exception:
         accepted = False
@@ -108,6 +124,8 @@ def check_mnemonic(case):
                         case, "mnemonic-%s" % ("accepted-invalid" if accepted else "rejected-valid"))
     curve = case["curve"]
     kw = dict(passphrase=case["password"], email=case["email"], curve=curve.encode())
+    if lang != "english":
+        kw["language"] = lang
     if valid:
         # independent derivation (BIP-39 seed, first 32 bytes as the curve's secret)
         norm = unicodedata.normalize("NFKD", text)
@@ -179,7 +197,9 @@ def key_cases(draw, with_pass):
 
 @st.composite
 def mnemonic_cases(draw):
-    wl = _wordlist()
+    lang = draw(st.sampled_from(["english", "english", "english", "french", "spanish", "japanese", "korean", "italian", "czech",
+                                 "chinese_simplified", "portuguese"]))
+    wl = _wordlist(lang)
     bits = draw(st.sampled_from([128, 160, 192, 224, 256]))
     ent = draw(st.one_of(st.binary(min_size=bits // 8, max_size=bits // 8),
                          st.sampled_from([b"\x00" * (bits // 8), b"\xff" * (bits // 8)])))
@@ -197,7 +217,8 @@ def mnemonic_cases(draw):
         words = words + [draw(st.sampled_from(wl)) for _ in range(draw(st.integers(1, 3)))]
     elif mode == "last":  # only the checksum-bearing last word changes
         words[-1] = draw(st.sampled_from(wl))
-    return {"mode": "mnemonic", "words": words, "mut": mode, "curve": draw(st.sampled_from(gen_keys.CURVES)),
+    form = draw(st.sampled_from(["nfkd", "nfkd", "nfc"] + (["ideographic-space"] if lang == "japanese" else [])))
+    return {"mode": "mnemonic", "words": words, "mut": mode, "curve": draw(st.sampled_from(gen_keys.CURVES)), "lang": lang, "form": form,
             "email": draw(st.sampled_from(["", "a@b.c", "ü@x.org"])),
             "password": draw(st.sampled_from(["", "pw", "пароль"]) | st.text(max_size=8))}
 
@@ -209,7 +230,9 @@ def _prop(case, stats):
                    sample={k: (v if k != "secret" else v[:16] + "…") for k, v in case.items()})
     else:
         stats.case(case, True, "mnemonic:%s:%s" % (case["mut"], "valid" if res else "invalid"),
-                   sample={"words": len(case["words"]), "mut": case["mut"], "valid": res, "curve": case["curve"]})
+                   sample={"words": len(case["words"]), "mut": case["mut"], "valid": res, "curve": case["curve"],
+                           "lang": case.get("lang"), "form": case.get("form")})
+        stats.label("lang:%s" % case.get("lang", "english"))
 
 
 def run(h):
